@@ -170,6 +170,396 @@ def _line_template_widths(func, var):
     raise ValueError(f"{var} template not found")
 
 
+# ---- pass 7: more of the source turned into regenerated facts (structure, literals, defaults, exception classes)
+def _lq(x):
+    """Lean string literal."""
+    return '"' + str(x).replace("\\", "\\\\").replace('"', '\\"').replace("\n", "\\n").replace("\t", "\\t") + '"'
+
+
+def _lstrs(xs):
+    return "[" + ", ".join(_lq(x) for x in xs) + "]"
+
+
+def _find_class(tree, name):
+    for node in ast.walk(tree):
+        if isinstance(node, ast.ClassDef) and node.name == name:
+            return node
+    raise ValueError(f"class {name} not found")
+
+
+def _method(cls, name):
+    for node in cls.body:
+        if isinstance(node, ast.FunctionDef) and node.name == name:
+            return node
+    raise ValueError(f"method {cls.name}.{name} not found")
+
+
+def _raises(func):
+    """Exception class names raised in a function, in source order (nested functions excluded)."""
+    out = []
+    for node in ast.walk(func):
+        if isinstance(node, ast.Raise) and node.exc is not None:
+            exc = node.exc.func if isinstance(node.exc, ast.Call) else node.exc
+            out.append((node.lineno, node.col_offset, exc.id if isinstance(exc, ast.Name) else ast.unparse(exc)))
+    return [n for _, _, n in sorted(out)]
+
+
+def _defaults(func, skip_self=True):
+    """[(argument, default as source text or '<required>')]"""
+    args = func.args.args
+    defs = [None] * (len(args) - len(func.args.defaults)) + list(func.args.defaults)
+    out = []
+    for a, d in zip(args, defs):
+        if skip_self and a.arg in ("self", "cls"):
+            continue
+        out.append((a.arg, "<required>" if d is None else ast.unparse(d)))
+    for a, d in zip(func.args.kwonlyargs, func.args.kw_defaults):
+        out.append((a.arg, "<required>" if d is None else ast.unparse(d)))
+    return out
+
+
+def _fstring_shape(node):
+    """An f-string (or implicit concatenation / + of them) as a list of pieces: ('lit', text) | ('fmt', spec, kind)."""
+    out = []
+    for parts, rep in _flatten_fstring(node):
+        one = []
+        for part in parts:
+            if isinstance(part, ast.Constant):
+                one.append(("lit", str(part.value), ""))
+            else:
+                spec = ""
+                if part.format_spec is not None:
+                    spec = "".join(x.value for x in part.format_spec.values if isinstance(x, ast.Constant))
+                val = part.value
+                if isinstance(val, ast.Constant):
+                    kind = "const:" + repr(val.value)
+                elif isinstance(val, ast.Call) and isinstance(val.func, ast.Attribute) and val.func.attr == "capitalize":
+                    kind = "call:capitalize"
+                elif isinstance(val, ast.Call) and isinstance(val.func, ast.Attribute) and val.func.attr == "get" and len(val.args) == 2 \
+                        and isinstance(val.args[1], ast.Constant):
+                    kind = "dictget-default:" + repr(val.args[1].value)
+                elif isinstance(val, ast.BinOp) and isinstance(val.op, ast.Add) and isinstance(val.right, ast.Constant):
+                    kind = "plus:" + repr(val.right.value)
+                elif isinstance(val, ast.Call) and isinstance(val.func, ast.Name):
+                    kind = "call:" + val.func.id
+                else:
+                    kind = "value"
+                one.append(("fmt", spec, kind))
+        out += one * rep
+    return out
+
+
+def _shape_lean(shape):
+    return "[" + ", ".join(f"({_lq(a)}, {_lq(b)}, {_lq(c)})" for a, b, c in shape) + "]"
+
+
+def _assigned(func, var):
+    for node in ast.walk(func):
+        if isinstance(node, ast.Assign) and isinstance(node.targets[0], ast.Name) and node.targets[0].id == var:
+            return node.value
+    raise ValueError(f"{func.name}: assignment to {var} not found")
+
+
+def _sum_items(node):
+    """`[a] + xs + ["b"]` -> ['lit:a', 'name:xs', 'lit:b']"""
+    if isinstance(node, ast.BinOp) and isinstance(node.op, ast.Add):
+        return _sum_items(node.left) + _sum_items(node.right)
+    if isinstance(node, ast.List):
+        out = []
+        for e in node.elts:
+            if isinstance(e, ast.Constant):
+                out.append("lit:" + str(e.value))
+            elif isinstance(e, ast.Name):
+                out.append("name:" + e.id)
+            else:
+                raise ValueError("unexpected list element in a line-list expression")
+        return out
+    if isinstance(node, ast.Name):
+        return ["name:" + node.id]
+    raise ValueError("unexpected term in a line-list expression")
+
+
+def _str_calls(func, method):
+    """String constants passed to `<x>.method("...")` in source order."""
+    out = []
+    for node in ast.walk(func):
+        if isinstance(node, ast.Call) and isinstance(node.func, ast.Attribute) and node.func.attr == method and node.args:
+            a = node.args[0]
+            if isinstance(a, ast.Constant) and isinstance(a.value, str):
+                out.append((node.lineno, node.col_offset, a.value))
+            elif isinstance(a, ast.JoinedStr):
+                out.append((node.lineno, node.col_offset, "".join(x.value if isinstance(x, ast.Constant) else "{}" for x in a.values)))
+            elif isinstance(a, ast.Name):
+                out.append((node.lineno, node.col_offset, "name:" + a.id))
+    return [t for _, _, t in sorted(out)]
+
+
+def _open_slices(func, var):
+    """`var[k:]` lower bounds in source order."""
+    out = []
+    for node in ast.walk(func):
+        if isinstance(node, ast.Subscript) and isinstance(node.value, ast.Name) and node.value.id == var and isinstance(node.slice, ast.Slice) \
+                and node.slice.upper is None and isinstance(node.slice.lower, ast.Constant):
+            out.append((node.lineno, node.col_offset, node.slice.lower.value))
+    return [k for _, _, k in sorted(out)]
+
+
+def _const_offsets(func, op):
+    """Right-hand constants of `x <op> k` (op = ast.Add / ast.Sub) in a function."""
+    return sorted({n.right.value for n in ast.walk(func) if isinstance(n, ast.BinOp) and isinstance(n.op, op)
+                   and isinstance(n.right, ast.Constant) and isinstance(n.right.value, int)})
+
+
+def _gen_more(base):
+    ctab = ast.parse(open(os.path.join(base, "structure/io/mol/ctab.py")).read())
+    sdf = ast.parse(open(os.path.join(base, "structure/io/mol/sdf.py")).read())
+    molpy = ast.parse(open(os.path.join(base, "structure/io/mol/mol.py")).read())
+    conv = ast.parse(open(os.path.join(base, "structure/io/mol/convert.py")).read())
+    hdr = ast.parse(open(os.path.join(base, "structure/io/mol/header.py")).read())
+    rd = ast.parse(open(os.path.join(base, "interface/rdkit/mol.py")).read())
+    L = []
+
+    def emit(doc, name, typ, val):
+        L.append(f"/-- {doc} -/")
+        L.append(f"def {name} : {typ} := {val}")
+
+    w2, w3 = _find_func(ctab, "_write_structure_to_ctab_v2000"), _find_func(ctab, "_write_structure_to_ctab_v3000")
+    r2, r3 = _find_func(ctab, "_read_structure_from_ctab_v2000"), _find_func(ctab, "_read_structure_from_ctab_v3000")
+    wtop, rtop = _find_func(ctab, "write_structure_to_ctab"), _find_func(ctab, "read_structure_from_ctab")
+    T3 = "List (String × String × String)"
+    emit("ctab.py `V2000_COMPATIBILITY_LINE`", "compatLine", "String", _lq(ast.literal_eval(_find_assign(ctab, "V2000_COMPATIBILITY_LINE"))))
+    emit("V2000 counts line f-string: (lit|fmt, text|spec, kind of the formatted value)", "countsLineShape", T3, _shape_lean(_fstring_shape(_assigned(w2, "counts_line"))))
+    emit("V2000 atom line f-string", "atomLineShape", T3, _shape_lean(_fstring_shape(_assigned(w2, "atom_lines").elt)))
+    emit("V2000 bond line f-string", "bondLineShape", T3, _shape_lean(_fstring_shape(_assigned(w2, "bond_lines").elt)))
+    # charge line: the argument of charge_lines.append(...)
+    app = [n for n in ast.walk(w2) if isinstance(n, ast.Call) and isinstance(n.func, ast.Attribute) and n.func.attr == "append"
+           and isinstance(n.func.value, ast.Name) and n.func.value.id == "charge_lines"]
+    if len(app) != 1 or not (isinstance(app[0].args[0], ast.BinOp) and isinstance(app[0].args[0].op, ast.Add)):
+        raise ValueError("ctab.py: `charge_lines.append(f\"M  CHG...\" + \"\".join(...))` not found")
+    head, tail = app[0].args[0].left, app[0].args[0].right
+    if not (isinstance(tail, ast.Call) and isinstance(tail.func, ast.Attribute) and tail.func.attr == "join"
+            and isinstance(tail.func.value, ast.Constant) and tail.func.value.value == "" and isinstance(tail.args[0], ast.GeneratorExp)):
+        raise ValueError("ctab.py: charge entries are not joined with ''")
+    emit("`M  CHG` line head f-string", "chargeHeadShape", T3, _shape_lean(_fstring_shape(head)))
+    emit("one `M  CHG` entry f-string", "chargeEntryShape", T3, _shape_lean(_fstring_shape(tail.args[0].elt)))
+    ret2 = [n for n in ast.walk(w2) if isinstance(n, ast.Return)]
+    emit("order of the line groups returned by the V2000 writer", "v2000LineOrder", "List String", _lstrs(_sum_items(ret2[-1].value)))
+    emit("V3000 counts line f-string", "v3000CountsShape", T3, _shape_lean(_fstring_shape(_assigned(w3, "counts_line"))))
+    emit("V3000 atom line f-string", "v3000AtomShape", T3, _shape_lean(_fstring_shape(_assigned(w3, "atom_lines").elt)))
+    emit("V3000 bond line f-string", "v3000BondShape", T3, _shape_lean(_fstring_shape(_assigned(w3, "bond_lines").elt)))
+    # lines = (["BEGIN CTAB"] + ...); lines = ["M  V30 " + line for line in lines]; return [COMPAT] + lines + ["M  END"]
+    lines_assigns = [n.value for n in ast.walk(w3) if isinstance(n, ast.Assign) and isinstance(n.targets[0], ast.Name) and n.targets[0].id == "lines"]
+    skeleton = [v for v in lines_assigns if isinstance(v, ast.BinOp)]
+    prefixed = [v for v in lines_assigns if isinstance(v, ast.ListComp)]
+    if len(skeleton) != 1 or len(prefixed) != 1 or not (isinstance(prefixed[0].elt, ast.BinOp) and isinstance(prefixed[0].elt.left, ast.Constant)):
+        raise ValueError("ctab.py: V3000 line skeleton / `M  V30 ` prefix not found")
+    emit("V3000 block skeleton", "v3000Skeleton", "List String", _lstrs(_sum_items(skeleton[0])))
+    emit("prefix of every V3000 line", "v30Prefix", "String", _lq(prefixed[0].elt.left.value))
+    ret3 = [n for n in ast.walk(w3) if isinstance(n, ast.Return)]
+    emit("what the V3000 writer returns", "v3000Return", "List String", _lstrs(_sum_items(ret3[-1].value)))
+    tp = _find_func(ctab, "_to_property")
+    emit("`_to_property`: compare ops / constants and the f-string", "toPropertyShape", "List String",
+         _lstrs([type(n.ops[0]).__name__ + ":" + repr(n.comparators[0].value) for n in ast.walk(tp) if isinstance(n, ast.Compare)]
+                + ["".join(x.value if isinstance(x, ast.Constant) else "{}" for x in n.values) for n in ast.walk(tp) if isinstance(n, ast.JoinedStr)]
+                + [repr(n.value.value) for n in ast.walk(tp) if isinstance(n, ast.Return) and isinstance(n.value, ast.Constant)]))
+    qf = _find_func(ctab, "_quote")
+    def cmp_kinds(func):
+        """compare operators with their constant operand, boolean connectives — without the names of locals"""
+        out = []
+        for n in ast.walk(func):
+            if isinstance(n, ast.BoolOp):
+                out.append((n.lineno, n.col_offset, type(n.op).__name__))
+            elif isinstance(n, ast.Compare):
+                consts = [repr(c.value) for c in [n.left] + n.comparators if isinstance(c, ast.Constant)]
+                out.append((n.lineno, n.col_offset + 1, type(n.ops[0]).__name__ + ":" + ",".join(consts)))
+        return [t for _, _, t in sorted(out)]
+    emit("`_quote`: connective, tests (operator:constant) and the quoted form", "quoteShape", "List String",
+         _lstrs(cmp_kinds(qf)
+                + ["".join(x.value if isinstance(x, ast.Constant) else "{}" for x in n.values) for n in ast.walk(qf) if isinstance(n, ast.JoinedStr)]))
+    # reader literals
+    emit("`startswith(...)` literals of the V2000 reader", "r2StartsWith", "List String", _lstrs(_str_calls(r2, "startswith")))
+    emit("`line[k:]` of the V2000 reader (`M  CHGnn8` prefix)", "r2OpenSlices", "List Nat", str(_open_slices(r2, "line")))
+    emit("`startswith(...)` literals of the V3000 reader", "r3StartsWith", "List String", _lstrs(_str_calls(r3, "startswith")))
+    emit("`line[k:]` of the V3000 reader", "r3OpenSlices", "List Nat", str(_open_slices(r3, "line")))
+    gb = _find_func(ctab, "_get_block_v3000")
+    emit("`_get_block_v3000`: startswith patterns in source order", "blockMarkers", "List String", _lstrs(_str_calls(gb, "startswith")))
+    blocks = [n.args[1].value for n in ast.walk(r3) if isinstance(n, ast.Call) and isinstance(n.func, ast.Name) and n.func.id == "_get_block_v3000"
+              and isinstance(n.args[1], ast.Constant)]
+    emit("blocks the V3000 reader asks for, in order", "blocksRead", "List String", _lstrs(blocks))
+    # V3000 reader column indices: columns[k] and columns[a:b], columns[k:]
+    cols = []
+    for n in ast.walk(r3):
+        if isinstance(n, ast.Subscript) and isinstance(n.value, ast.Name) and n.value.id == "columns":
+            cols.append((n.lineno, n.col_offset, ast.unparse(n.slice)))
+    emit("`columns[...]` subscripts of the V3000 reader in source order", "r3Columns", "List String", _lstrs([c for _, _, c in sorted(cols)]))
+    emit("string constants compared / looked up by the V3000 reader", "r3Strings", "List String",
+         _lstrs(sorted({n.value for n in ast.walk(r3) if isinstance(n, ast.Constant) and isinstance(n.value, str) and n.value in ("R#", "CHG", "'", '"')})))
+    pd = _find_func(ctab, "create_property_dict_v3000")
+    emit("`create_property_dict_v3000`: split separator", "propSplit", "List String", _lstrs(_str_calls(pd, "split")))
+    emit("`x - k` constants in the readers (1-based file indices)", "readerMinus", "List Int", str(sorted(set(_const_offsets(r2, ast.Sub) + _const_offsets(r3, ast.Sub)))))
+    emit("`x + k` constants in the writers", "writerPlus", "List Int", str(sorted(set(_const_offsets(w2, ast.Add) + _const_offsets(w3, ast.Add)))))
+    emit("version strings matched by the dispatchers (`case \"…\"`)", "versionCases", "List String",
+         _lstrs([n.pattern.value.value if isinstance(n.pattern, ast.MatchValue) else ("None" if isinstance(n.pattern, ast.MatchSingleton) else "<capture>")
+                 for f in (rtop, wtop) for n in ast.walk(f) if isinstance(n, ast.match_case)]))
+    # order of the guards of the V2000 writer
+    def line_of(func, pred, what):
+        ls = [n.lineno for n in ast.walk(func) if pred(n)]
+        if not ls:
+            raise ValueError(f"{func.name}: {what} not found")
+        return min(ls)
+    coord_guard = line_of(w2, lambda n: isinstance(n, ast.Compare) and isinstance(n.left, ast.Name) and n.left.id == "n_coord_digits", "coordinate guard")
+    elem_cmp = [n for n in ast.walk(w2) if isinstance(n, ast.Compare) and isinstance(n.left, ast.Call) and getattr(n.left.func, "id", "") == "len"
+                and isinstance(n.comparators[0], ast.Constant)]
+    if len(elem_cmp) != 1:
+        raise ValueError("_write_structure_to_ctab_v2000: element width guard not found")
+    dflt_line = line_of(w2, lambda n: isinstance(n, ast.Subscript) and isinstance(n.value, ast.Name) and n.value.id == "BOND_TYPE_MAPPING_REV", "default bond lookup")
+    atom_line = line_of(w2, lambda n: isinstance(n, ast.Assign) and isinstance(n.targets[0], ast.Name) and n.targets[0].id == "atom_lines", "atom_lines")
+    emit("V2000 writer: the element width guard `len(element) <op> k`", "elemGuard", "String × Nat",
+         f"({_lq(type(elem_cmp[0].ops[0]).__name__)}, {elem_cmp[0].comparators[0].value})")
+    emit("V2000 writer: coordinate guard < element guard < atom lines < default-bond lookup (source order)", "v2000GuardOrder", "Bool",
+         "true" if coord_guard < elem_cmp[0].lineno < atom_line < dflt_line else "false")
+    # exceptions
+    mdcls, sdcls, srcls, mfcls = _find_class(sdf, "Metadata"), _find_class(sdf, "SDFile"), _find_class(sdf, "SDRecord"), _find_class(molpy, "MOLFile")
+    keycls = [n for n in mdcls.body if isinstance(n, ast.ClassDef) and n.name == "Key"][0]
+    hcls = _find_class(hdr, "Header")
+    raises = [("write_structure_to_ctab", _raises(wtop)), ("_write_structure_to_ctab_v2000", _raises(w2)), ("_write_structure_to_ctab_v3000", _raises(w3)),
+              ("read_structure_from_ctab", _raises(rtop)), ("_read_structure_from_ctab_v3000", _raises(r3)), ("_get_block_v3000", _raises(gb)),
+              ("Key.__post_init__", _raises(_method(keycls, "__post_init__"))), ("Key.deserialize", _raises(_method(keycls, "deserialize"))),
+              ("Metadata.deserialize", _raises(_method(mdcls, "deserialize"))), ("_check_metadata_value", _raises(_find_func(sdf, "_check_metadata_value"))),
+              ("_add_key_value_pair", _raises(_find_func(sdf, "_add_key_value_pair"))),
+              ("SDRecord.get_structure", _raises(_method(srcls, "get_structure"))), ("SDFile.serialize", _raises(_method(sdcls, "serialize"))),
+              ("SDFile.__getitem__", _raises(_method(sdcls, "__getitem__"))), ("SDFile.__setitem__", _raises(_method(sdcls, "__setitem__"))),
+              ("SDFile.record", _raises(_method(sdcls, "record"))), ("Header.serialize", _raises(_method(hcls, "serialize"))),
+              ("MOLFile.get_structure", _raises(_method(mfcls, "get_structure"))), ("to_mol", _raises(_find_func(rd, "to_mol"))),
+              ("from_mol", _raises(_find_func(rd, "from_mol")))]
+    emit("exception classes raised, per function, in source order", "raisesTable", "List (String × List String)",
+         "[" + ", ".join(f"({_lq(n)}, {_lstrs(r)})" for n, r in raises) + "]")
+    # defaults
+    defs = [("write_structure_to_ctab", _defaults(wtop)), ("MOLFile.set_structure", _defaults(_method(mfcls, "set_structure"))),
+            ("SDRecord.set_structure", _defaults(_method(srcls, "set_structure"))), ("SDRecord.__init__", _defaults(_method(srcls, "__init__"))),
+            ("SDFile.__init__", _defaults(_method(sdcls, "__init__"))), ("Metadata.__init__", _defaults(_method(mdcls, "__init__"))),
+            ("convert.get_structure", _defaults(_find_func(conv, "get_structure"))), ("convert.set_structure", _defaults(_find_func(conv, "set_structure"))),
+            ("to_mol", _defaults(_find_func(rd, "to_mol"))), ("from_mol", _defaults(_find_func(rd, "from_mol")))]
+    for cls, nm in ((hcls, "Header"), (keycls, "Metadata.Key")):
+        fs = [(n.target.id, ast.unparse(n.value) if n.value is not None else "<required>") for n in cls.body
+              if isinstance(n, ast.AnnAssign) and isinstance(n.target, ast.Name) and not n.target.id.startswith("_")]
+        defs.append((nm, fs))
+    emit("default values of the public entry points (argument, default as source text)", "defaultsTable", "List (String × List (String × String))",
+         "[" + ", ".join(f"({_lq(n)}, [" + ", ".join(f"({_lq(a)}, {_lq(d)})" for a, d in ds) + "])" for n, ds in defs) + "]")
+    # sdf.py / mol.py / convert.py constants
+    emit("sdf.py `_N_HEADER`, mol.py `N_HEADER`", "nHeader", "Nat × Nat", f"({ast.literal_eval(_find_assign(sdf, '_N_HEADER'))}, {ast.literal_eval(_find_assign(molpy, 'N_HEADER'))})")
+    emit("sdf.py `_RECORD_DELIMITER`", "recordDelimiter", "String", _lq(ast.literal_eval(_find_assign(sdf, "_RECORD_DELIMITER"))))
+    def regex_src(node):
+        if isinstance(node, ast.Call) and getattr(node.func, "attr", "") == "compile" and isinstance(node.args[0], ast.Constant):
+            return node.args[0].value
+        raise ValueError("re.compile(<literal>) expected")
+    name_re = [n.value for n in keycls.body if isinstance(n, ast.Assign) and n.targets[0].id == "_NAME_INPUT_REGEX"]
+    comp_re = [n.value for n in keycls.body if isinstance(n, ast.Assign) and n.targets[0].id == "_COMPONENT_REGEX"]
+    if len(name_re) != 1 or len(comp_re) != 1 or not isinstance(comp_re[0], ast.Dict):
+        raise ValueError("sdf.py: key regexes not found")
+    emit("`Metadata.Key._NAME_INPUT_REGEX`", "keyNameRegex", "String", _lq(regex_src(name_re[0])))
+    emit("`Metadata.Key._COMPONENT_REGEX` in dict order", "keyComponentRegex", "List (String × String)",
+         "[" + ", ".join(f"({_lq(k.value)}, {_lq(regex_src(v))})" for k, v in zip(comp_re[0].keys, comp_re[0].values)) + "]")
+    post = _method(keycls, "__post_init__")
+    ext_re = [n.args[0].value for n in ast.walk(post) if isinstance(n, ast.Call) and getattr(n.func, "attr", "") == "match" and n.args
+              and isinstance(n.args[0], ast.Constant)]
+    emit("regex applied to `registry_external` in `__post_init__`", "keyExtRegex", "List String", _lstrs(ext_re))
+    emit("`__post_init__`: compare ops against constants (`< 0` …)", "keyNumberGuards", "List String",
+         _lstrs([type(n.ops[0]).__name__ + ":" + repr(n.comparators[0].value) for n in ast.walk(post) if isinstance(n, ast.Compare)
+                 and isinstance(n.comparators[0], ast.Constant) and isinstance(n.comparators[0].value, int)]))
+    kser = _method(keycls, "serialize")
+    pieces = []
+    for n in ast.walk(kser):
+        if isinstance(n, ast.Assign) and isinstance(n.value, ast.Constant):
+            pieces.append((n.lineno, "init:" + n.value.value))
+        elif isinstance(n, ast.AugAssign) and isinstance(n.value, ast.JoinedStr):
+            pat = "".join(x.value if isinstance(x, ast.Constant) else "{" + (x.value.attr if isinstance(x.value, ast.Attribute) else "?") + "}" for x in n.value.values)
+            pieces.append((n.lineno, pat))
+    emit("`Key.serialize`: the pieces appended, in order", "keySerializePieces", "List String", _lstrs([t for _, t in sorted(pieces)]))
+    cmv = _find_func(sdf, "_check_metadata_value")
+    emit("`_check_metadata_value`: startswith / split literals, then the tests (operator:constant; `call:` = a method result is tested)", "valueChecks", "List String",
+         _lstrs(_str_calls(cmv, "startswith") + _str_calls(cmv, "split")
+                + [("call:" + n.test.func.attr) if isinstance(n.test, ast.Call) and isinstance(n.test.func, ast.Attribute) else
+                   (type(n.test.ops[0]).__name__ + ":" + ",".join(repr(c.value) for c in n.test.comparators if isinstance(c, ast.Constant))
+                    + ("/" + n.test.left.func.attr if isinstance(n.test.left, ast.Call) and isinstance(n.test.left.func, ast.Attribute) else ""))
+                   for n in ast.walk(cmv) if isinstance(n, ast.If)]))
+    mdes = _method(mdcls, "deserialize")
+    emit("`Metadata.deserialize`: startswith literal and the join separator", "mdDeserializeStrings", "List String",
+         _lstrs(_str_calls(mdes, "startswith") + sorted({n.value for n in ast.walk(mdes) if isinstance(n, ast.Constant) and n.value == "\n"})))
+    gcs = _find_func(sdf, "_get_ctab_stop")
+    rng_calls = [n for n in ast.walk(gcs) if isinstance(n, ast.Call) and getattr(n.func, "id", "") == "range"]
+    if len(rng_calls) != 1:
+        raise ValueError("_get_ctab_stop: range(...) not found")
+    a0 = rng_calls[0].args[0]
+    emit("`_get_ctab_stop`: number of range arguments (2 = forward scan), its start, the startswith literal, `return i + k`", "ctabStopShape", "List String",
+         _lstrs([f"args:{len(rng_calls[0].args)}", "start:" + (a0.id if isinstance(a0, ast.Name) else ast.unparse(a0))] + _str_calls(gcs, "startswith")
+                + ["ret:+" + repr(n.value.right.value) for n in ast.walk(gcs) if isinstance(n, ast.Return) and isinstance(n.value, ast.BinOp)
+                   and isinstance(n.value.op, ast.Add) and isinstance(n.value.right, ast.Constant)]))
+    gcl = _find_func(molpy, "_get_ctab_lines")
+    fors = [n.iter for n in ast.walk(gcl) if isinstance(n, ast.For)]
+    if len(fors) != 1:
+        raise ValueError("_get_ctab_lines: loop not found")
+    it = fors[0]
+    if isinstance(it, ast.Call) and getattr(it.func, "id", "") == "enumerate" and isinstance(it.args[0], ast.Subscript) \
+            and isinstance(it.args[0].slice, ast.Slice) and isinstance(it.args[0].slice.lower, ast.Name):
+        src = "enumerate-from:" + it.args[0].slice.lower.id + "/start=" + ",".join(ast.unparse(k.value) for k in it.keywords if k.arg == "start")
+    else:
+        src = "enumerate-all" if isinstance(it, ast.Call) and getattr(it.func, "id", "") == "enumerate" else "other"
+    emit("mol.py `_get_ctab_lines`: where the scan for `M  END` starts, the startswith literal", "ctabLinesShape", "List String",
+         _lstrs([src] + _str_calls(gcl, "startswith")))
+    sdes = _method(sdcls, "deserialize")
+    def delim_tests(func):
+        out = []
+        for n in ast.walk(func):
+            if isinstance(n, ast.Call) and getattr(n.func, "attr", "") in ("startswith", "endswith") and n.args and isinstance(n.args[0], ast.Name):
+                out.append(n.func.attr + ":" + n.args[0].id)
+            elif isinstance(n, ast.Compare) and isinstance(n.ops[0], (ast.In, ast.Eq)) and isinstance(n.left, ast.Name) and n.left.id == "_RECORD_DELIMITER":
+                out.append(type(n.ops[0]).__name__ + ":_RECORD_DELIMITER")
+        return out
+    emit("`SDFile.deserialize`: how a delimiter line is recognised", "delimiterTest", "List String", _lstrs(delim_tests(sdes)))
+    sser = _method(sdcls, "serialize")
+    emit("`SDFile.serialize`: the delimiter-line check", "delimiterCheck", "List String", _lstrs(delim_tests(sser)))
+    goc = _find_func(conv, "_get_or_create_record")
+    emit("convert.py `_get_or_create_record`: the invented record name, and the membership guard before a record is created", "convertShape", "List String",
+         _lstrs([n.value.value for n in ast.walk(goc) if isinstance(n, ast.Assign) and isinstance(n.value, ast.Constant) and isinstance(n.value.value, str)]
+                + [type(n.test.ops[0]).__name__ for n in ast.walk(goc) if isinstance(n, ast.If) and isinstance(n.test, ast.Compare)
+                   and isinstance(n.test.ops[0], (ast.In, ast.NotIn))]))
+    # header.py: which field is read from which slice, in which order the fields are written
+    hde = _method(hcls, "deserialize")
+    fs = []
+    for n in ast.walk(hde):
+        if isinstance(n, ast.Assign) and isinstance(n.targets[0], ast.Name):
+            for sub in ast.walk(n.value):
+                if isinstance(sub, ast.Subscript) and isinstance(sub.slice, ast.Slice) and isinstance(sub.value, ast.Subscript) \
+                        and isinstance(sub.slice.lower, ast.Constant):
+                    fs.append((sub.slice.lower.value, n.targets[0].id, sub.slice.upper.value,
+                               any(isinstance(c, ast.Call) and getattr(c.func, "attr", "") == "strip" for c in ast.walk(n.value))))
+    # local variable -> Header field: position in the final `Header(...)` call
+    hfields = [n.target.id for n in hcls.body if isinstance(n, ast.AnnAssign) and isinstance(n.target, ast.Name) and not n.target.id.startswith("_")]
+    hcalls = [n for n in ast.walk(hde) if isinstance(n, ast.Call) and getattr(n.func, "id", "") == "Header"]
+    if len(hcalls) != 1:
+        raise ValueError("Header.deserialize: `Header(...)` call not found")
+    pos = {a.id: hfields[i] for i, a in enumerate(hcalls[0].args) if isinstance(a, ast.Name) and i < len(hfields)}
+    pos.update({k.value.id: k.arg for k in hcalls[0].keywords if isinstance(k.value, ast.Name)})
+    emit("header.py: (Header field, start, stop, stripped) read from the second line (`time`: via strptime)", "headerFieldSlices", "List (String × Nat × Nat × Bool)",
+         "[" + ", ".join(f"({_lq(pos.get(nm, 'time'))}, {a}, {b}, {'true' if st else 'false'})" for a, nm, b, st in sorted(fs)) + "]")
+    emit("header.py: the Header fields given positionally to `Header(...)` by deserialize = the dataclass field order", "headerCtorOrder", "List String",
+         _lstrs([pos.get(a.id, "?") if isinstance(a, ast.Name) else "?" for a in hcalls[0].args]))
+    hse = _method(hcls, "serialize")
+    joined = [n for n in ast.walk(hse) if isinstance(n, ast.JoinedStr) and sum(isinstance(v, ast.FormattedValue) for v in n.values) >= 5][0]
+    emit("header.py: fields written into the second line, in order", "headerWriteOrder", "List String",
+         _lstrs([x.value.attr if isinstance(x.value, ast.Attribute) else "time" for x in joined.values if isinstance(x, ast.FormattedValue)]))
+    emit("header.py: indices of the lines the three parts are read from", "headerLineIndices", "List Nat",
+         str(sorted({n.slice.value for n in ast.walk(hde) if isinstance(n, ast.Subscript) and isinstance(n.value, ast.Name)
+                     and isinstance(n.slice, ast.Constant) and isinstance(n.slice.value, int)})))
+    # rdkit: keyword of AddConformer
+    tm = _find_func(rd, "to_mol")
+    emit("to_mol: keywords of `mol.AddConformer(...)`", "addConformerKeywords", "List String",
+         _lstrs([f"{k.arg}={ast.unparse(k.value)}" for n in ast.walk(tm) if isinstance(n, ast.Call) and getattr(n.func, "attr", "") == "AddConformer" for k in n.keywords]))
+    return L
+
+
+
 def gen_lean():
     from common import paths
     base = os.path.join(paths.SRC, "biotite")
@@ -333,6 +723,7 @@ def gen_lean():
         "def headerFields : List (Nat × Nat) := " + pairs(header_fields),
         f"def headerDateFormat : String := {q(date_format)}",
         f"def headerNameLimit : Nat := {name_limits[0]}",
+        ] + _gen_more(base) + [
         "end BiotiteModel.Gen.C18", ""]
     return {"BiotiteModel/Gen/C18.lean": "\n".join(body)}
 
